@@ -247,7 +247,8 @@ class CacheProp(SeqProp):
 class LruProp(CacheProp):
     kind = "lru"
     pid = "C06"
-    rule = ("random store/lookup/delete/membership/view/mixin sequences over 2-6 keys and capacities 1-5 (thorough: all "
+    rule = ("random store/lookup/delete/membership/view/mixin sequences over 2-6 keys and capacities 1-5, values re-used and "
+            "including None, 0, '', (), False, 0.0; == and != against dicts (thorough: all "
             "sequences to length 4 over a 13-op alphabet, capacities 1-2); after every op result, key order, values, len, "
             "dict keys and dict/list agreement are compared with the Lean model and judged by a stepwise LRU oracle; "
             "non-trivial = at least 4 ops with a store")
@@ -349,7 +350,8 @@ class LruProp(CacheProp):
 class LfuProp(CacheProp):
     kind = "lfu"
     pid = "C07"
-    rule = ("random store/lookup/delete/membership/view/mixin sequences over 2-6 keys and capacities 1-5 (thorough: all "
+    rule = ("random store/lookup/delete/membership/view/mixin sequences over 2-6 keys and capacities 1-5, values re-used and "
+            "including None, 0, '', (), False, 0.0; == and != against dicts (thorough: all "
             "sequences to length 4 over a 13-op alphabet, capacities 1-2); after every op result, list order, values, use "
             "counts, len, dict keys and dict/list agreement are compared with the Lean model and judged by a stepwise LFU "
             "oracle that leaves ties among equal counts free; non-trivial = at least 4 ops with a store")
